@@ -19,6 +19,14 @@ REPL = {
     'collinear3->OCF': ('collinear3', ['O', 'C', 'F'], [(0, 0, 0), (1.2, 0, 0), (2.9, 0, 0)]),
     'collinear3->OCSN': ('collinear3', ['O', 'C', 'S', 'N'], [(0, 0, 0), (1.2, 0, 0), (2.7, 0, 0), (1.2, 1.0, 0.5)]),
     'single->F': ('single', ['F'], [(0, 0, 0)]),
+    'singleF->H': ('singleF', ['H'], [(0, 0, 0)]),
+    'pair->CF': ('pair', ['C', 'F'], [(0, 0, 0), (1.35, 0, 0)]),
+    'pairCF->pair': ('pairCF', ['C', 'H'], [(0, 0, 0), (1.09, 0, 0)]),
+    'chiralCHSP->chiral4': ('chiralCHSP', ['C', 'H', 'N', 'O'], [(0, 0, 0), (1.0, 0, 0), (0, 1.2, 0), (0, 0, 1.4)]),
+    'planar3->planar3': ('planar3', ['C', 'N', 'O'], [(0, 0, 0), (1.3, 0, 0), (-0.4, 1.1, 0)]),
+    'collinear3->collinear3': ('collinear3', ['O', 'C', 'S'], [(0, 0, 0), (1.2, 0, 0), (2.7, 0, 0)]),
+    'ch2-sym3->ch2-sym3': ('ch2-sym3', ['C', 'H', 'H'], [(0, 0, 0), (0.9, 0.6, 0), (-0.9, 0.6, 0)]),
+    'linear-sym3->linear-sym3': ('linear-sym3', ['O', 'C', 'O'], [(-1.16, 0, 0), (0, 0, 0), (1.16, 0, 0)]),
     'single->H': ('single', ['H'], [(0, 0, 0)]),
     'linear-sym3->OCS': ('linear-sym3', ['O', 'C', 'S'], [(-1.16, 0, 0), (0, 0, 0), (1.5, 0, 0)]),
     'ch2-sym3->CFF': ('ch2-sym3', ['C', 'F', 'F'], [(0, 0, 0), (1.0, 0.7, 0), (-1.0, 0.7, 0)]),
@@ -67,6 +75,20 @@ def run_e2e(ctx, p):
     if p.get('charges'):
         st.charges = np.arange(len(els)) * 0.1 - 0.3
         st.groups = np.arange(len(els)) % 3
+    if p.get('st_terms'):
+        n = len(els)
+        st.bonds = np.array([(i, i + 1) for i in range(n - 1)])
+        st.bond_types = np.array([i % 2 for i in range(n - 1)])
+        st.extra_bond_fields = np.full((n - 1, 0), '.', dtype=object)
+        st.angles = np.array([(i, i + 1, i + 2) for i in range(n - 2)])
+        st.angle_types = np.array([0] * (n - 2))
+        st.extra_angle_fields = np.full((n - 2, 0), '.', dtype=object)
+        st.dihedrals = np.array([(i, i + 1, i + 2, i + 3) for i in range(0, n - 3, 2)])
+        st.dihedral_types = np.array([0] * len(st.dihedrals))
+        st.extra_dihedral_fields = np.full((len(st.dihedrals), 0), '.', dtype=object)
+        st.impropers = np.array([(1, 0, 2, 3)])
+        st.improper_types = np.array([0])
+        st.extra_improper_fields = np.full((1, 0), '.', dtype=object)
     smotif, rel, rpos = REPL[p['repl']]
     assert smotif == motif, (smotif, motif)
     sel, spos = MOTIFS[motif]
@@ -206,3 +228,36 @@ def check_bystanders(ctx, p, R):
             ctx.require('surviving atom keeps position, element, charge, group and order',
                         AND(*[EQ(res.positions[r][c], R['snap_pos'][i][c]) for c in range(3)], els_res[r] == R['els'][i],
                             EQ(res.charges[r], st.charges[i]), EQ(res.groups[r], st.groups[i])), detail=dict(atom=i))
+
+
+def replace_again(ctx, st2, repl_name, replace_all=False):
+    """second replacement on the (symbolic) result of the first"""
+    smotif, rel, rpos = REPL[repl_name]
+    sel, spos = MOTIFS[smotif]
+    search = make_pattern(ctx, None, elements=sel, positions=np.array(spos, dtype=float))
+    replace = make_pattern(ctx, None, elements=rel, positions=np.array(rpos, dtype=float))
+    return ctx.ms.mofun.replace_pattern_in_structure(st2, search, replace, atol=A, return_num_matches=True, replace_all=replace_all)
+
+
+def same_sites(ctx, a_els, a_pos, b_els, b_pos, cell, tol=1e-5):
+    """multiset equality of (element, position modulo lattice): greedy bijection on the shift-cancelled differences"""
+    cell = np.array(cell, dtype=float)
+    if len(a_els) != len(b_els):
+        return False, 'count'
+    free = list(range(len(b_els)))
+    for i in range(len(a_els)):
+        hit = None
+        for j in free:
+            if a_els[i] != b_els[j]:
+                continue
+            try:
+                d = np.array([fl(b_pos[j][c] - a_pos[i][c]) for c in range(3)])
+            except core.Unsupported:
+                continue
+            if np.linalg.norm(nearest_image(d, cell)) <= tol:
+                hit = j
+                break
+        if hit is None:
+            return False, f'no site for original atom {i} ({a_els[i]})'
+        free.remove(hit)
+    return True, ''
